@@ -12,7 +12,8 @@
 //
 //	{"ev":"resp","t":id} | {"ev":"err","t":id} | {"ev":"conc","ops":[{"op":"req|resp|err","t":id,"flow":f,"early":b},...]}
 //
-// One tick = 1 s. The clock is advanced tick by tick; after every tick the harness waits until the
+// One tick = tick_ms milliseconds (1000 / 500 / 250: engine start, admissions and GC passes then fall on
+// sub-second clock readings). The clock is advanced tick by tick; after every tick the harness waits until the
 // background GC passes that the tick made due have completed (hook cq.gc.done) and re-armed their
 // timer (MockClock.PendingTimers), so that no later event races with a background pass.
 // Observation: no early-return action = "admit"; early response 429 = "refuse"; early response 200 = "early".
@@ -33,7 +34,8 @@ import (
 	"verifharness/internal/vh"
 )
 
-const tick = time.Second
+// tick is the duration of one clock tick of the running script (Script.TickMs; 1 s when absent)
+var tick = time.Second
 
 var base = time.Unix(1_700_000_000, 0)
 
@@ -66,6 +68,7 @@ type Script struct {
 	Files     map[string]string `json:"files"`
 	Flows     map[string]Flow   `json:"flows"`
 	NGC       int               `json:"ngc"`
+	TickMs    int               `json:"tick_ms"`
 	Hooks     bool              `json:"hooks"`
 	Histories [][]Event         `json:"histories"`
 }
@@ -93,7 +96,7 @@ func (rn *runner) waitFor(what string, cond func() bool) {
 }
 
 // advance moves the mock clock one tick at a time and waits for the background passes to settle.
-func (rn *runner) advance(from, d int64) {
+func (rn *runner) advance(from, d int64) (fired int) {
 	for i := int64(1); i <= d; i++ {
 		target := at(from + i)
 		due := 0
@@ -102,12 +105,14 @@ func (rn *runner) advance(from, d int64) {
 				due++
 			}
 		}
+		fired += due
 		want := rn.gcDone.Load() + int64(due)
 		rn.eng.Clk.Set(target)
 		rn.waitFor("gc passes", func() bool {
 			return rn.gcDone.Load() >= want && len(rn.eng.Clk.PendingTimers()) >= rn.sc.NGC
 		})
 	}
+	return fired
 }
 
 func (rn *runner) urlOf(t, flow string) string {
@@ -171,6 +176,10 @@ func main() {
 	uid := 0
 	for si := range scripts {
 		sc := &scripts[si]
+		tick = time.Second
+		if sc.TickMs > 0 {
+			tick = time.Duration(sc.TickMs) * time.Millisecond
+		}
 		dir, err := c01eng.WriteFiles(sc.Files)
 		if err != nil {
 			vh.Die("files: %v", err)
@@ -223,15 +232,27 @@ func main() {
 						rn.hooks.Add(vh.Ev{"ev": "reset", "now": now})
 					}
 				case "adv":
-					// one trace event per tick: the engine really sees every tick (with its GC passes)
-					for i := int64(0); i < e.D; i++ {
-						rn.advance(now, 1)
-						now++
-						tr.Add(vh.Ev{"ev": "adv", "d": 1})
-						if rn.hooks != nil {
-							rn.hooks.Add(vh.Ev{"ev": "adv", "d": 1})
+					// the engine sees every tick (with its GC passes); the trace gets one event per stretch that ends
+					// with a GC pass (that is where slots are reclaimed) and one for the rest
+					acc := int64(0)
+					flush := func() {
+						if acc > 0 {
+							tr.Add(vh.Ev{"ev": "adv", "d": acc})
+							if rn.hooks != nil {
+								rn.hooks.Add(vh.Ev{"ev": "adv", "d": acc})
+							}
+							acc = 0
 						}
 					}
+					for i := int64(0); i < e.D; i++ {
+						fired := rn.advance(now, 1)
+						now++
+						acc++
+						if fired > 0 {
+							flush()
+						}
+					}
+					flush()
 				case "req", "resp", "err":
 					o := e.Op
 					o.Op = e.Ev
